@@ -263,6 +263,22 @@ def configurations(cls: str, n_rules: int, thorough: bool) -> Iterator[tuple[lis
                         yield degrees, states, n, val.get("t", 0.0), cmp
 
 
+def nan_configurations(cls: str) -> Iterator[tuple[list[float], list[str], int, float, str]]:
+    """A degree that is NaN (an input without a value): it compares false with everything, so it is selected by no method that asks `degree > 0` - and it
+    must not disturb the order in which the other rules are selected (an entry that cannot be ordered corrupts a heap or a sort it is put into: five rules,
+    the NaN in every position, the other four degrees in every order)."""
+    if cls == "General":
+        return
+    base = [0.125 * (k + 1) for k in range(4)]
+    with_t = cls in ("First", "Last", "Threshold")
+    perms = list(itertools.permutations(base))
+    for j in range(5):
+        for perm in (perms if cls in ("Highest", "Lowest") else perms[::4]):
+            degrees = list(perm[:j]) + [float("nan")] + list(perm[j:])
+            for cmp in (list(COMPARATORS) if cls == "Threshold" else [">"]):
+                yield degrees, ["ok"] * 5, (2 if cls in ("First", "Last") else 1), 0.25 if with_t else 0.0, cmp
+
+
 ASPECTS = {
     "deactivate-first": ("O-dea", "deactivate", "every rule of the block is deactivated before anything else is done to it"),
     "degrees": ("A-sem", "degrees", "the degree of every loaded rule (and of no other) is computed exactly once"),
@@ -305,7 +321,7 @@ def activation_semantics(check: Check, cls: str, aspects: tuple[str, ...] | None
         # which rules are selected depends on the order of the degrees; which operators are handed on, whether deactivation comes first and whether
         # something survives in the object do not: for those aspects alone every 16th configuration is interpreted in the quick tier
         full = bool({"selection", "degrees", "scalar-only"} & set(aspects)) or thorough
-        for number, (degrees, states, n, t, cmp) in enumerate(itertools.chain(*[configurations(cls, k, thorough) for k in sizes])):
+        for number, (degrees, states, n, t, cmp) in enumerate(itertools.chain(*[configurations(cls, k, thorough) for k in sizes], nan_configurations(cls))):
             if not full and number % 16:
                 continue
             cases += 1
@@ -343,12 +359,12 @@ def activation_semantics(check: Check, cls: str, aspects: tuple[str, ...] | None
                 try:
                     run(prime, me2)
                     run(w2, me2)
-                    same = w2.log == w.log
+                    same = repr(w2.log) == repr(w.log)  # by their printed form: a NaN degree equals itself here
                     how = "does something else"
                 except (Raised, Internal) as err:
                     same, how = False, f"ends with {err.cls}"
                 if not same:
-                    first = next((f"{a} instead of {b}" for a, b in zip(w2.log, w.log) if a != b), f"{len(w2.log)} steps instead of {len(w.log)}")
+                    first = next((f"{a} instead of {b}" for a, b in zip(w2.log, w.log) if repr(a) != repr(b)), f"{len(w2.log)} steps instead of {len(w.log)}")
                     bad["history-free"] = (f"{what}: the same {cls} object, after having activated a block with degrees {', '.join(f'{d:g}' for d in prime.degrees)}, "
                                            f"{how} ({first}): something survives in the activation object from one activation to the next", None)
     except Unknown as u:
